@@ -208,6 +208,8 @@ pub struct Run {
     /// Set once an index of u64::MAX has been handed to the store (C16 class).
     pub saw_index_max: bool,
     pub max_id_seen: Option<LogId>,
+    /// `records_after_op[k]` = number of accepted records once op number `k` (1-based) returned.
+    pub records_after_op: Vec<usize>,
 }
 
 fn seg_pair(s: &Segment) -> (u64, u64) {
@@ -280,8 +282,40 @@ impl Run {
             excluded: 0,
             saw_index_max: false,
             max_id_seen: None,
+            records_after_op: vec![0],
         };
         r.open_store(cfg).map_err(|e| Fail::new("open-fresh", format!("open of a fresh directory failed: {e}")))?;
+        Ok(r)
+    }
+
+    /// Attach to an existing directory (e.g. a crash image) whose observable content is `snap`.
+    pub fn attach(dir: &str, cfg: &CfgSpec, snap: Snapshot, stepped: bool) -> Result<Run, String> {
+        let mut r = Run {
+            dir: dir.to_string(),
+            cfg: cfg.clone(),
+            inst: None,
+            n_inst: 0,
+            model: Model::from_snapshot(snap),
+            layout: None,
+            flushes: vec![],
+            stepped,
+            classes: Classes::default(),
+            op_no: 0,
+            ops_since_idle: 0,
+            old_workers: vec![],
+            model_exact: true,
+            last_err: None,
+            avoid_low_reappend: false,
+            excluded: 0,
+            saw_index_max: false,
+            max_id_seen: None,
+            records_after_op: vec![0],
+        };
+        r.max_id_seen = r.model.cur.log.values().map(|v| v.0).max().max(r.model.cur.st.last);
+        if let Some(m) = r.max_id_seen {
+            r.note_term(m.0);
+        }
+        r.open_store(cfg)?;
         Ok(r)
     }
 
@@ -441,6 +475,10 @@ impl Run {
         let no = self.op_no;
         trace::mark(Mark::OpBegin(no));
         let r = self.exec_inner(op);
+        while self.records_after_op.len() <= no {
+            self.records_after_op.push(self.model.records.len());
+        }
+        self.records_after_op[no] = self.model.records.len();
         trace::mark(Mark::OpEnd(no));
         if r.is_ok() {
             match op {
